@@ -17,7 +17,12 @@ Parts implemented here (DESIGN.md section 5/C18):
   The third part (qmail-send's report channels) is attached through extra_parts(ctx).
 
 Left out relative to the design: injected unlink faults other than the EISDIR of a decoy directory; child delays
-(a delivery number "already in use" is still reached because all commands of a <= 1024-byte stream are read at once).
+(a delivery number "already in use" is still reached because all commands of a <= 1024-byte stream are read at once);
+one fresh process per request for the whole exhaustive domain (requests go in batches of ~1000 per process and are
+judged one by one; a failing request is re-run alone in a fresh process, Hypothesis also draws single-request streams).
+A violation of a deterministic input is reported only if it reproduces twice more (DESIGN.md section 1), otherwise it
+is counted as inconclusive / class flaky_unreproducible.  VERIF_DEBUG_LOG=<file> logs every violation message and
+harness exception seen inside the Hypothesis searches (debugging aid only).  C18_N overrides the examples per worker.
 """
 import os, re, json, stat, shutil, struct, random
 from lib import vlib, sandbox
@@ -43,6 +48,39 @@ ENOENT = 2
 def extra_parts(ctx):
     """HOOK for the lead: third part of C18 (qmail-send's report channels in the driven world). Called last by run()."""
     pass
+
+
+TOOLS = {"shim": sandbox.SHIM, "standin": sandbox.STANDIN}
+
+
+def private_tools():
+    """Other engineers rebuild shim/vshim.so while checks run; a child started in that window runs without the
+    interposer (real uid 0, no chdir redirection) and every oracle misfires.  Each run therefore works with its own
+    verified copy of vshim.so and standin under the scratch root."""
+    import subprocess, time
+    d = os.path.join(vlib.scratch_root(), "tools")
+    os.makedirs(d, exist_ok=True)
+    shim, standin = os.path.join(d, "vshim.so"), os.path.join(d, "standin")
+    why = ""
+    for attempt in range(15):
+        try:
+            shutil.copy2(sandbox.SHIM, shim)
+            shutil.copy2(sandbox.STANDIN, standin)
+            p = subprocess.run([standin], env={"LD_PRELOAD": shim, "SI_DIR": d, "VSHIM_UID": "4242"}, stdin=subprocess.DEVNULL,
+                               stdout=subprocess.PIPE, stderr=subprocess.PIPE, timeout=20)
+            meta = [f for f in os.listdir(d) if f.endswith(".meta")]
+            ok = p.returncode == 0 and not p.stderr and meta and "uid=4242" in open(os.path.join(d, meta[0])).read()
+            for f in os.listdir(d):
+                if f not in ("vshim.so", "standin"):
+                    os.unlink(os.path.join(d, f))
+            if ok:
+                TOOLS["shim"], TOOLS["standin"] = shim, standin
+                return
+            why = "exit %s stderr %r" % (p.returncode, p.stderr[:200])
+        except (OSError, subprocess.SubprocessError) as e:
+            why = str(e)
+        time.sleep(1)
+    raise vlib.HarnessError("no loadable copy of the shim / stand-in: " + why)
 
 
 # =================================================================== part 1: qmail-clean
@@ -110,6 +148,7 @@ class CleanRunner:
         self.q = self.h.queue.encode()
         self.split = self.h.split
         self.env = self.h.env(role="clean", uid=self.h.uids["q"])
+        self.env["LD_PRELOAD"] = TOOLS["shim"]
         self.present = set()          # model of every non-directory below queue (relative bytes paths)
         self.dirs = set()             # decoy directories sitting where a file is expected
         self.base_numbers = set()
@@ -431,7 +470,7 @@ class SpawnRunner:
     def __init__(self, tree, wid):
         self.tree = tree
         self.h = h = sandbox.Home(tree, os.path.join(vlib.scratch_root(), "c18s-%s" % wid))
-        h.link_bins(overrides={"qmail-local": sandbox.STANDIN})
+        h.link_bins(overrides={"qmail-local": TOOLS["standin"]})
         self.rec = os.path.join(h.dir, "rec")
         self.mess = os.path.join(h.queue, "mess")
         self.auto_spawn = int(tree.conf("conf-spawn"))
@@ -535,8 +574,9 @@ class SpawnRunner:
             argv = [self.tree.path(prog), "./Mailbox"]
         else:
             prog = "qmail-rspawn"
-            env = h.env(role="spawn", uid=h.uids["r"], QMAILREMOTE=sandbox.STANDIN, **senv)
+            env = h.env(role="spawn", uid=h.uids["r"], QMAILREMOTE=TOOLS["standin"], **senv)
             argv = [self.tree.path(prog)]
+        env["LD_PRELOAD"] = TOOLS["shim"]
         h.clear_trace()
         rc, out, err = sandbox.run_proc(argv, env, stdin=stream)
         cls = ["spawn_" + which, "spawn_tail_%d" % sc.get("tail", 0)]
@@ -722,8 +762,14 @@ def worker(job):
         for label, s in arg:
             v = r.run_batch(s, stats, label)
             if v:
-                stats.violations.append(v)
-                break
+                # DESIGN.md section 1: a violation counts only if it reproduces (a concurrent rebuild of the shim, an
+                # overloaded machine ... must never surface as a violation)
+                again = [r.run_batch(vlib.unjson(v[1]["stream"]), vlib.Stats(), label) for _ in range(2)]
+                if all(again):
+                    stats.violations.append(v)
+                    break
+                stats.inconclusive += 1
+                stats.cls("flaky_unreproducible")
     elif kind == "clean_hyp":
         seed, n = arg
         r = CleanRunner(tree, wid)
@@ -748,8 +794,11 @@ def worker(job):
         for sc in arg:
             v = r.run(sc, stats)
             if v:
-                stats.violations.append((v, sc))
-                break
+                if all([r.run(sc, vlib.Stats()) for _ in range(2)]):
+                    stats.violations.append((v, sc))
+                    break
+                stats.inconclusive += 1
+                stats.cls("flaky_unreproducible")
     elif kind == "spawn_hyp":
         seed, n = arg
         r = SpawnRunner(tree, wid)
@@ -775,6 +824,7 @@ REQUIRED_CLASSES = ["clean_exhaustive", "clean_fixed", "clean_random", "clean_va
 
 def run(ctx):
     sandbox.ensure_shim()
+    private_tools()
     tree = vlib.Tree().make("qmail-clean", "qmail-lspawn", "qmail-rspawn", "qmail-getpw")
     only = getattr(ctx, "only", None)
     nw = vlib.NCPU
@@ -808,6 +858,7 @@ def run(ctx):
 
 def replay(ctx, path):
     sandbox.ensure_shim()
+    private_tools()
     tree = vlib.Tree().make("qmail-clean", "qmail-lspawn", "qmail-rspawn", "qmail-getpw")
     sc = json.load(open(path))
     sc = sc.get("scenario", sc)
